@@ -212,47 +212,109 @@ def run(repo: Repo) -> Result:
     check_blank(repo, res, "C18-BLANK", only=lambda c: c.module.name == M, min_classes=2)
 
     # ---- C18-CHECKS -------------------------------------------------------------------
-    sb = repo.func(f"{M}._stack_blocks")
+    # read as a must-dataflow on the normalised function (private helpers inlined): both checks
+    # have been passed on EVERY path that reaches `_store_blocks(...)` or a `return` — a base
+    # template (no extends tag) included.  Variable names are taken from the code.
+    from ..flow import MustFlow as _MF
+    from ..guards import canon as _canon
+    from ..normalize import nfunc as _nfunc
+
+    sb = _nfunc(repo, repo.func(f"{M}._stack_blocks"), keep=("_store_blocks", "_find_inheritance_nodes"))
     res.ob(sb.qual, 3)
-    state = {"store_ok": None}
+    pairv = None
+    for st in ast.walk(sb.node):
+        if isinstance(st, ast.Assign) and isinstance(st.targets[0], ast.Tuple) and len(st.targets[0].elts) == 2 and isinstance(st.value, ast.Call) and callee_name(st.value) == "_find_inheritance_nodes":
+            pairv = tuple(e.id for e in st.targets[0].elts if isinstance(e, ast.Name))
+    if pairv is None or len(pairv) != 2:
+        raise AnchorMissing("_stack_blocks: `extends, blocks = _find_inheritance_nodes(...)` not found")
+    ext_v, blk_v = pairv
 
-    def gen_cond2(test, truth):
-        t = text(test)
-        out = set()
-        if t == "len(extends) > 1" and not truth:
-            out.add("single-extends")
-        return out
+    def raises_tie(body) -> bool:
+        return bool(body) and isinstance(body[-1], ast.Raise) and "TemplateInheritanceError" in text(body[-1])
 
-    def gen2(st):
-        # after the duplicate-name loop
-        if isinstance(st, ast.For) or False:
-            return set()
+    many = {_canon(ast.parse(f"len({ext_v}) > 1", mode="eval").body), _canon(ast.parse(f"len({ext_v}) >= 2", mode="eval").body)}
+
+    def is_dup_loop(st) -> bool:
+        """for b in <blocks>: if b.name in S: raise TemplateInheritanceError ...; S.add(b.name)"""
+        if not (isinstance(st, ast.For) and is_name(st.iter, blk_v) and isinstance(st.target, ast.Name)):
+            return False
+        b = st.target.id
+        sets = set()
+        for n in ast.walk(st):
+            if isinstance(n, ast.If) and isinstance(n.test, ast.Compare) and len(n.test.ops) == 1 and isinstance(n.test.ops[0], ast.In) and text(n.test.left) == f"{b}.name" and isinstance(n.test.comparators[0], ast.Name) and raises_tie(n.body):
+                sets.add(n.test.comparators[0].id)
+        for c in calls(st):
+            if callee_name(c) == "add" and isinstance(c.func, ast.Attribute) and isinstance(c.func.value, ast.Name) and c.func.value.id in sets and c.args and text(c.args[0]) == f"{b}.name":
+                return True
+        return False
+
+    class _Checks(_MF):
+        def stmt(self, st_node, st):
+            if isinstance(st_node, ast.If) and _canon(st_node.test) in many and raises_tie(st_node.body) and not st_node.orelse:
+                # falls through only with at most one extends tag
+                self.visit(st_node.test, st)
+                return frozenset(st | {"single-extends"})
+            out = super().stmt(st_node, st)
+            if out is not None and is_dup_loop(st_node):
+                out = frozenset(out | {"no-duplicates"})
+            return out
+
+    sites: list = []
+
+    def visit2(node, st):
+        if isinstance(node, ast.Return):
+            sites.append(("return", node, st))
+        for c in [node] + list(walk_no_nested(node)) if isinstance(node, ast.stmt) and not isinstance(node, (ast.For, ast.While, ast.If, ast.With, ast.Try)) else []:
+            if isinstance(c, ast.Call) and callee_name(c) == "_store_blocks":
+                sites.append(("store", c, st))
+
+    def gen_cond3(test, truth):
+        # `if not extends:` — no extends tag at all is certainly not more than one
+        t, want = test, truth
+        while isinstance(t, ast.UnaryOp) and isinstance(t.op, ast.Not):
+            t, want = t.operand, not want
+        if is_name(t, ext_v) and not want:
+            return {"single-extends"}
+        if _canon(t) in many and not want:
+            return {"single-extends"}
         return set()
 
-    # simple ordered-shape check: statements of the body in order
-    body = [s for s in sb.node.body if not (isinstance(s, ast.Expr) and isinstance(s.value, ast.Constant))]
-    idx = {"extends_raise": None, "dup_loop": None, "store": None}
-    for i, st in enumerate(body):
-        if isinstance(st, ast.If) and text(st.test) == "len(extends) > 1" and len(st.body) == 1 and isinstance(st.body[0], ast.Raise) and "TemplateInheritanceError" in text(st.body[0]):
-            idx["extends_raise"] = i
-        if isinstance(st, ast.For) and text(st.iter) == "blocks":
-            has = any(isinstance(n, ast.If) and "in seen_block_names" in text(n.test) and isinstance(n.body[0], ast.Raise) and "TemplateInheritanceError" in text(n.body[0]) for n in ast.walk(st))
-            adds = any(callee_name(c) == "add" and text(call_recv(c)) == "seen_block_names" for c in calls(st))
-            if has and adds:
-                idx["dup_loop"] = i
-        if isinstance(st, ast.Expr) and isinstance(st.value, ast.Call) and callee_name(st.value) == "_store_blocks":
-            idx["store"] = i
-    if idx["extends_raise"] is None:
-        res.add("C18-CHECKS", sb.qual, "too-many-extends", "_stack_blocks must raise TemplateInheritanceError when a template has more than one extends tag", sb.file, sb.line)
-    if idx["dup_loop"] is None:
-        res.add("C18-CHECKS", sb.qual, "duplicate-block", "_stack_blocks must raise TemplateInheritanceError for a duplicate block name", sb.file, sb.line)
-    if idx["store"] is None:
+    _Checks(visit=visit2, gen_cond=gen_cond3).run(sb.node)
+    if not any(k == "store" for k, _n, _s in sites):
         res.add("C18-CHECKS", sb.qual, "store", "_stack_blocks must record the blocks with _store_blocks", sb.file, sb.line)
-    elif None not in idx.values() and not (idx["extends_raise"] < idx["store"] and idx["dup_loop"] < idx["store"]):
-        res.add("C18-CHECKS", sb.qual, "order", "the too-many-extends and duplicate-block checks must precede _store_blocks", sb.file, sb.line)
+    missing = {"single-extends": [], "no-duplicates": []}
+    for kind, node, st in sites:
+        for fact in missing:
+            if fact not in st:
+                missing[fact].append((kind, node))
+    if missing["single-extends"]:
+        kind, node = missing["single-extends"][0]
+        res.add("C18-CHECKS", sb.qual, "too-many-extends", f"_stack_blocks reaches `{text(node)[:50]}` on a path that has not rejected a template with more than one extends tag (TemplateInheritanceError)", sb.file, node.lineno)
+    if missing["no-duplicates"]:
+        kind, node = missing["no-duplicates"][0]
+        res.add("C18-CHECKS", sb.qual, "duplicate-block", f"_stack_blocks reaches `{text(node)[:50]}` on a path that has not rejected duplicate block names (TemplateInheritanceError) — e.g. for a base template, the last one of the chain", sb.file, node.lineno)
     bt = repo.own_method(f"{M}.BlockTag", "parse")
     res.ob(bt.qual)
-    ok = any(isinstance(n, ast.If) and text(n.test) == "end_block_name != block_name" and isinstance(n.body[0], ast.Raise) and "TemplateInheritanceError" in text(n.body[0]) for n in ast.walk(bt.node))
+    # `if <end name> != <block name>: raise TemplateInheritanceError` — both sides are locals bound
+    # from parse_name(...) (whatever they are called), or the comparison is written the other way
+    pn = {}
+    for n in ast.walk(bt.node):
+        if isinstance(n, ast.Assign) and len(n.targets) == 1 and isinstance(n.targets[0], ast.Name):
+            pn.setdefault(n.targets[0].id, []).append(n.value)
+    from_parse_name = {k for k, vs in pn.items() if all(isinstance(v, ast.Call) and callee_name(v) == "parse_name" for v in vs)}
+    ok = any(
+        isinstance(n, ast.If)
+        and isinstance(n.test, ast.Compare)
+        and len(n.test.ops) == 1
+        and isinstance(n.test.ops[0], ast.NotEq)
+        and isinstance(n.test.left, ast.Name)
+        and isinstance(n.test.comparators[0], ast.Name)
+        and {n.test.left.id, n.test.comparators[0].id} <= from_parse_name
+        and n.test.left.id != n.test.comparators[0].id
+        and isinstance(n.body[-1], ast.Raise)
+        and "TemplateInheritanceError" in text(n.body[-1])
+        for n in ast.walk(bt.node)
+    )
     if not ok:
         res.add("C18-CHECKS", bt.qual, "endblock-name", "BlockTag.parse must reject an endblock whose name differs from the block's name", bt.file, bt.line)
 
@@ -352,8 +414,11 @@ def run(repo: Repo) -> Result:
                     res.add("C18-REQUIRED", f.qual, "order", f"{f.qual}: `{text(c)[:50]}` can run without the required check having passed", f.file, c.lineno)
     bd = repo.own_method(f"{M}.BlockDrop", "__getitem__")
     res.ob(bd.qual, 2)
-    t = text(bd.node)
-    if "self.parent.block.block.render(self.context, buf)" not in t or "parent=self.parent.parent" not in t:
+    from ..astutil import local_names as _local_names
+    from ..astutil import ltext as _ltext
+
+    t = _ltext(bd.node, _local_names(bd.node))  # local names written `_`
+    if "self.parent.block.block.render(self.context, _)" not in t or "parent=self.parent.parent" not in t:
         res.add("C18-SELECT", bd.qual, "super-one-step", "block.super must render the next definition up (self.parent.block) with parent=self.parent.parent", bd.file, bd.line)
     if "if not self.parent" not in t:
         res.add("C18-SELECT", bd.qual, "no-parent", "block.super without a parent must be undefined", bd.file, bd.line)
